@@ -25,9 +25,20 @@ with the run bounds in the merge loop condition, the left cursor is the one the 
   R-COPYBACK * buffer-swap     each pass exchanges the source and destination pointers exactly once (evaluated on symbolic pointers)
              * copy-back       after any number of passes (both parities) the result is in the caller's array: memcpy(arr, src, n
                                elements) exactly when src != arr
+  R-SEMANTIC abstract interpretation (MemInterp: elements are abstract objects with a rank and an original position; element
+             assignments / memcpy move them, the comparator sees only ranks) of
+             * small-arrays    every generated sort function on every weak ordering of <= 4 elements: the caller's array ends as the
+                               stable sorted permutation; every partial-sort function on every weak ordering of <= 5 elements and every
+                               k: the first k slots hold the k smallest ranks in order; the numeric helpers on every array of <= 4
+                               values of a three-value domain
+             * merge-region    the body of the stride loop (guard, merge, copy — whatever its shape: fast paths, helpers) with run
+                               lengths 1..3 on every pair of sorted runs: the destination holds the stable merge
+             This is exhaustive over the finite set of orderings for the stated sizes, shape-independent, and is what decides
+             fast paths, sift-down loop bounds and heap construction; the clauses above localise a defect.
   R-CMP      every comparator passed to an instantiation is antisymmetric over all order types of its keys (see sa.finite);
              NaN keys are recorded, not failures (NAN_STRICT).
-Not decided: that the output is a sorted permutation for every length (algorithmic induction over the loops).
+Not decided: that the output is a sorted permutation for every length (algorithmic induction over the loops); R-SEMANTIC covers
+the stated small sizes only (merges of runs up to 3, arrays up to 4 / 5).
 """
 from __future__ import annotations
 
@@ -341,6 +352,7 @@ def check_sort(res, unit, fn, file, cmps):
     if len(ins) != 1:
         raise AnalysisError(f"{name}: expected one insertion step, found {len(ins)}")
     info = check_insertion(res, unit, fn, file, name, ins[0][0], ins[0][1])
+    sort_semantics(res, unit, fn, file, cmps, arr, buf, nname)
 
     # ---------------------------------------------------------------- run loop
     def top_ancestor(x):
@@ -472,6 +484,16 @@ def check_sort(res, unit, fn, file, cmps):
         res.bad("R-BOUNDS", construct, file, pass_loop.get("line"), probs[0])
     else:
         res.ok("R-BOUNDS", construct, {"mid": cir.text(init_expr(midv)), "end": cir.text(init_expr(endv2))})
+
+    # ---------------------------------------------------------------- merge region, small-size semantics
+    ptr_frame = {}
+    for vid, vd in decls.items():
+        if vd.get("k") == "VarDecl" and finite.is_pointer_type(vd.get("t")) and not finite.contains(pass_loop, vd):
+            ie = init_expr(vd)
+            ptr_frame[vid] = ev(unit, ie, {}) if ie is not None else finite._UNINIT
+    merge_semantics(res, unit, fn, file, cmps, ibody,
+                    lambda L, s0, n: dict(ptr_frame, **{pvd.get("id"): L, ivd.get("id"): s0}),
+                    arr.get("n"), buf.get("n"), nname)
 
     # ---------------------------------------------------------------- merge tie
     cond, then, els = finite.if_parts(mif)
@@ -620,6 +642,253 @@ def check_sort(res, unit, fn, file, cmps):
         res.ok("R-COPYBACK", construct, None)
 
 
+# ------------------------------------------------------------------------------------------------------------ small-size semantics
+
+class Elem:
+    """An abstract array element: only its rank (the comparator's view of it) and its original position exist."""
+    __slots__ = ("pos", "rank")
+
+    def __init__(self, pos, rank):
+        self.pos = pos
+        self.rank = rank
+
+    def __repr__(self):
+        return f"e{self.pos}(r{self.rank})"
+
+
+class MemInterp(finite.Interp):
+    """finite.Interp + a store for abstract element arrays: cells `<array>[i]` hold Elem objects, element assignments and memcpy
+    move them, comparator calls see only their ranks.  Still nothing of the repository is executed: the AST is interpreted over
+    the finite set of weak orderings of the input elements."""
+
+    def __init__(self, unit, cmp_names, mem):
+        super().__init__(unit, env={}, call_abs=self._abs, inline=set(), max_steps=400000)
+        self.mem = mem
+        self.cmp_names = set(cmp_names)
+        self.cmp_count = 0
+
+    def _coerce(self, v, t):
+        if isinstance(v, Elem):
+            return v
+        return super()._coerce(v, t)
+
+    def _unary(self, n):
+        if n.get("op") == "&":
+            x = cir.strip(cir.kids(n)[0], casts=False)
+            if x is not None and x.get("k") == "DeclRefExpr" and (x.get("ref") or {}).get("k") == "VarDecl" and self.frames and \
+                    x["ref"].get("id") in self.frames[-1]:
+                # address of a local holding an element (`&tmp` handed to the comparator): a one-cell array named after it
+                return finite.Ptr(f"local:{x['ref'].get('id')}", 0)
+        return super()._unary(n)
+
+    def _local_cell(self, key):
+        m = re.match(r"^local:(\w+)\[0\]$", key)
+        if m and self.frames and m.group(1) in {str(k) for k in self.frames[-1]}:
+            for k, v in self.frames[-1].items():
+                if str(k) == m.group(1):
+                    return v
+        return None
+
+    def load(self, loc):
+        if loc[0] == "mem":
+            if loc[1] in self.mem:
+                return self.mem[loc[1]]
+            if re.match(r"^[A-Za-z_]\w*\[-?\d+\]$", loc[1]):
+                raise finite.Unsupported(f"read of {loc[1]}: outside the array or never written")
+        return super().load(loc)
+
+    def store(self, loc, v):
+        if loc[0] == "mem":
+            if not re.match(r"^[A-Za-z_]\w*\[-?\d+\]$", loc[1]):
+                raise finite.Unsupported(f"store to {loc[1]}")
+            self.mem[loc[1]] = v
+            return
+        if isinstance(v, Elem):
+            self.frames[-1][loc[1]] = v
+            return
+        super().store(loc, v)
+
+    def _abs(self, name, node, it):
+        if name in ("memcpy", "memmove", "__builtin_memcpy", "__builtin___memcpy_chk", "__memcpy_chk"):
+            a = cir.args(node)
+            d, s_, ln = (self.rvalue(x) for x in a[:3])
+            if not (isinstance(d, finite.Ptr) and isinstance(s_, finite.Ptr) and isinstance(ln, finite._Bytes)):
+                raise finite.Unsupported(f"memcpy with arguments ({d}, {s_}, {ln}) at line {node.get('line')}")
+            vals = []
+            for i in range(ln.count):
+                key = s_.cell(i)
+                if key not in self.mem:
+                    raise finite.Unsupported(f"memcpy reads {key}: outside the array or never written")
+                vals.append(self.mem[key])
+            for i, v in enumerate(vals):
+                self.mem[d.cell(i)] = v
+            return d
+        if name in self.cmp_names:
+            a = cir.args(node)
+            x, y = self.rvalue(a[0]), self.rvalue(a[1])
+            if not (isinstance(x, finite.Ptr) and isinstance(y, finite.Ptr)):
+                raise finite.Unsupported(f"comparator called on non-element pointers at line {node.get('line')}")
+            ex = self.mem.get(x.cell(0)) if not x.key.startswith("local:") else self._local_cell(x.cell(0))
+            ey = self.mem.get(y.cell(0)) if not y.key.startswith("local:") else self._local_cell(y.cell(0))
+            if not isinstance(ex, Elem) or not isinstance(ey, Elem):
+                raise finite.Unsupported(f"comparator reads {x.cell(0)} / {y.cell(0)}: outside the array or never written")
+            self.cmp_count += 1
+            return (ex.rank > ey.rank) - (ex.rank < ey.rank)
+        return NotImplemented
+
+
+def weak_orderings(n):
+    """all rank vectors of n elements up to order isomorphism (every weak ordering once): ranks use 0..m-1 with every rank used."""
+    out = []
+
+    def rec(prefix, used):
+        if len(prefix) == n:
+            if set(prefix) == set(range(used)):
+                out.append(tuple(prefix))
+            return
+        for r in range(min(used + 1, n)):
+            rec(prefix + [r], max(used, r + 1))
+    # generate all surjective maps onto an initial segment (any order of first appearance)
+    import itertools
+    seen = set()
+    for m in range(1, n + 1):
+        for v in itertools.product(range(m), repeat=n):
+            if set(v) == set(range(m)):
+                seen.add(v)
+    return sorted(seen) if n else [()]
+
+
+def _sem_fail(res, construct, file, line, what):
+    res.bad("R-SEMANTIC", construct, file, line, what)
+
+
+def _fmt(elems):
+    return "[" + " ".join(repr(e) for e in elems) + "]"
+
+
+def _run_function(unit, fn, cmps, mem, bind):
+    it = MemInterp(unit, cmps, mem)
+    it.run_function(fn, bind=bind)
+    return it
+
+
+def sort_semantics(res, unit, fn, file, cmps, arr, buf, nname, maxn=4):
+    """whole function on every weak ordering of up to maxn elements (the insertion path: n <= run size)."""
+    name = fn.get("n")
+    construct = f"{name}:small-arrays"
+    cases = 0
+    for n in range(0, maxn + 1):
+        for ranks in weak_orderings(n):
+            mem = {f"{arr.get('n')}[{i}]": Elem(i, r) for i, r in enumerate(ranks)}
+            try:
+                _run_function(unit, fn, cmps, mem, {nname: n})
+            except finite.Unsupported as e:
+                _sem_fail(res, construct, file, fn.get("line"), f"{name} on ranks {list(ranks)}: {e}")
+                return False
+            cases += 1
+            got = [mem.get(f"{arr.get('n')}[{i}]") for i in range(n)]
+            want = sorted((Elem(i, r) for i, r in enumerate(ranks)), key=lambda e: (e.rank, e.pos))
+            if [(e.pos if e else None) for e in got] != [e.pos for e in want]:
+                _sem_fail(res, construct, file, fn.get("line"),
+                          f"{name} on {n} elements with ranks {list(ranks)} returns {_fmt(got)}; the stable sorted order is {_fmt(want)}")
+                return False
+    res.ok("R-SEMANTIC", construct, {"max_n": maxn, "orderings": cases})
+    return True
+
+
+def merge_semantics(res, unit, fn, file, cmps, region, frame_of, src_key, dst_key, nname):
+    """the body of the stride loop (guard + merge + copy) with small run lengths, on every pair of sorted runs."""
+    name = fn.get("n")
+    construct = f"{name}:merge-region"
+    cases = 0
+    for L in (1, 2, 3):
+        for n in range(1, 2 * L + 1):
+            for ranks in weak_orderings(n):
+                left, right = ranks[:min(L, n)], ranks[min(L, n):]
+                if list(left) != sorted(left) or list(right) != sorted(right):
+                    continue
+                mem = {f"{src_key}[{i}]": Elem(i, r) for i, r in enumerate(ranks)}
+                it = MemInterp(unit, cmps, mem)
+                it.env[nname] = n
+                it.frames.append(dict(frame_of(L, 0, n)))
+                try:
+                    try:
+                        it.stmt(region)
+                    except finite._Continue:
+                        pass            # the region is a loop body: `continue` ends this iteration
+                    except finite._Break:
+                        raise AnalysisError(f"{name}: the stride loop is left by `break`: the merge region cannot be evaluated per iteration")
+                except finite.Unsupported as e:
+                    _sem_fail(res, construct, file, region.get("line") or fn.get("line"),
+                              f"{name}: merge of runs {list(left)} | {list(right)}: {e}")
+                    return False
+                except finite.NeedKey as nk:
+                    raise AnalysisError(f"{name}: free variable {nk.key} in the merge region has no value in the finite evaluation")
+                cases += 1
+                got = [mem.get(f"{dst_key}[{i}]") for i in range(n)]
+                want = sorted((Elem(i, r) for i, r in enumerate(ranks)), key=lambda e: (e.rank, e.pos))
+                if [(e.pos if isinstance(e, Elem) else None) for e in got] != [e.pos for e in want]:
+                    _sem_fail(res, construct, file, region.get("line") or fn.get("line"),
+                              f"{name}: merging the sorted runs with ranks {list(left)} | {list(right)} (run length {L}, n={n}) writes "
+                              f"{_fmt(got)} to the destination; the stable merge is {_fmt(want)}"
+                              + (" — equal elements change their relative order" if isinstance(got[0], Elem) and all(isinstance(g, Elem) for g in got)
+                                 and [g.rank for g in got] == [w.rank for w in want] else ""))
+                    return False
+    res.ok("R-SEMANTIC", construct, {"run_lengths": [1, 2, 3], "cases": cases})
+    return True
+
+
+def partial_semantics(res, unit, fn, file, cmps, arr, nname, kname, maxn=5):
+    name = fn.get("n")
+    construct = f"{name}:small-arrays"
+    cases = 0
+    for n in range(1, maxn + 1):
+        for k in range(1, n + 1):
+            for ranks in weak_orderings(n):
+                mem = {f"{arr.get('n')}[{i}]": Elem(i, r) for i, r in enumerate(ranks)}
+                try:
+                    _run_function(unit, fn, cmps, mem, {nname: n, kname: k})
+                except finite.Unsupported as e:
+                    _sem_fail(res, construct, file, fn.get("line"), f"{name} on ranks {list(ranks)}, k={k}: {e}")
+                    return False
+                cases += 1
+                got = [mem.get(f"{arr.get('n')}[{i}]") for i in range(k)]
+                want = sorted(ranks)[:k]
+                gr = [(e.rank if isinstance(e, Elem) else None) for e in got]
+                if gr != want or len({e.pos for e in got if isinstance(e, Elem)}) != k:
+                    _sem_fail(res, construct, file, fn.get("line"),
+                              f"{name} on {n} elements with ranks {list(ranks)} and k={k} leaves ranks {gr} in the first k slots; the k "
+                              f"smallest in sorted order are {want}")
+                    return False
+    res.ok("R-SEMANTIC", construct, {"max_n": maxn, "cases": cases})
+    return True
+
+
+def helper_semantics(res, unit, fn, file, ptr, npar, isf, maxn=4):
+    """insertion-sort helpers on plain numbers: every array of up to maxn values from a three-value domain."""
+    import itertools
+    name = fn.get("n")
+    construct = f"{name}:small-arrays"
+    dom = (0.0, 1.0, 2.0) if isf else (0, 1, 2)
+    cases = 0
+    for n in range(0, maxn + 1):
+        for vals in itertools.product(dom, repeat=n):
+            mem = {f"{ptr}[{i}]": v for i, v in enumerate(vals)}
+            it = MemInterp(unit, (), mem)
+            try:
+                it.run_function(fn, bind={npar: n})
+            except finite.Unsupported as e:
+                _sem_fail(res, construct, file, fn.get("line"), f"{name} on {list(vals)}: {e}")
+                return False
+            cases += 1
+            got = [mem.get(f"{ptr}[{i}]") for i in range(n)]
+            if got != sorted(vals):
+                _sem_fail(res, construct, file, fn.get("line"), f"{name} on {list(vals)} returns {got}; sorted: {sorted(vals)}")
+                return False
+    res.ok("R-SEMANTIC", construct, {"max_n": maxn, "cases": cases})
+    return True
+
+
 # ------------------------------------------------------------------------------------------------------------ mjPARTIAL_SORT
 
 def check_partial(res, unit, fn, file, cmps):
@@ -647,6 +916,7 @@ def check_partial(res, unit, fn, file, cmps):
                                                              f"(`{cir.text(info['ocond'])}`)")
         return
     nname = [x for x in names if x != kname][0]
+    sem_ok = partial_semantics(res, unit, fn, file, cmps, arr, nname, kname)
     first = top[0]
     probs = []
     if first.get("k") != "IfStmt" or not _c14.terminates(finite.if_parts(first)[1]):
@@ -748,7 +1018,8 @@ def check_partial(res, unit, fn, file, cmps):
                         f"must not; {wrong[0]}")
             else:
                 res.ok("R-FINITE", construct, {"cond": cir.text(conj[0])})
-    if nsift < 2 or nscan != 1:
+    if (nsift < 2 or nscan != 1) and sem_ok:
+        # (when the small-size evaluation already reported a definite violation, the unrecognised shape is not the verdict)
         raise AnalysisError(f"{name}: heap decisions not found (sift {nsift}, scan {nscan})")
 
 
@@ -781,6 +1052,10 @@ def run(res, tier):
     res.rule("R-BOUNDS", "run, pass and copy bounds evaluated on concrete sizes", floor=26)
     res.rule("R-COPYBACK", "buffer exchange per pass and final copy-back for both parities", floor=8)
     res.rule("R-CMP", "comparators passed to the sort instantiations are antisymmetric", floor=5)
+    res.rule("R-SEMANTIC", "abstract interpretation of the generated functions over every weak ordering of a small number of abstract "
+             "elements (only ranks and original positions exist): sort = stable sorted permutation (n <= 4); the merge region on "
+             "every pair of sorted runs of length <= 3 = stable merge; partial sort = the k smallest in order (n <= 5, all k); "
+             "the numeric helpers on every array of <= 4 values from a three-value domain", floor=9)
     ninst = 0
     seen_cmp = set()
     for tu, uses in sorted(tus.items()):
@@ -820,6 +1095,7 @@ def run(res, tier):
         info = check_insertion(res, um, fn, MISC, h, ins[0][0], ins[0][1], float_keys=isf)
         # helper outer loop covers [1, n)
         npar = [p for p in cir.params(fn) if finite.base_type(p.get("t")) == "int"][0].get("n")
+        helper_semantics(res, um, um.funcs[h], MISC, ptr.get("n"), npar, isf)
         construct = f"{h}:outer-bounds"
         ovd = info["ovd"]
         bad = [v for v in (2, 3, 4) if bool(ev(um, info["ocond"], {npar: 3}, frame={ovd.get("id"): v})) != (v < 3)]
